@@ -341,9 +341,30 @@ class CollectionsStub(Ext):
             return b_list
         if name == "namedtuple":
             def nt(eng, tname, fields):
-                names = eng.iterate(fields)
+                names = eng.iterate(fields) if not isinstance(fields, str) else fields.replace(",", " ").split()
                 cls = VClass(tname)
-                cls.constructor = lambda eng, c, a, k: VObj(c, dict(zip(names, a)))
+
+                def ctor(eng, c, a, k):
+                    vals = dict(zip(names, a))
+                    vals.update(k)
+                    return VObj(c, {n: vals.get(n) for n in names})
+                cls.constructor = ctor
+
+                def it(eng, selfobj):
+                    return VList([selfobj.fields[n] for n in names])
+
+                def gi(eng, selfobj, i):
+                    return [selfobj.fields[n] for n in names][i]
+
+                def ln(eng, selfobj):
+                    return len(names)
+
+                def rep(eng, selfobj, **kw):
+                    return VObj(cls, dict(selfobj.fields, **kw))
+                for nm_, fn_ in (("__iter__", it), ("__getitem__", gi), ("__len__", ln), ("_replace", rep)):
+                    fn_._pyvc_method = True
+                    cls.attrs[nm_] = fn_
+                cls.attrs["_fields"] = tuple(names)
                 return cls
             return stub(nt)
         raise Unsupported("collections.%s" % name)
